@@ -184,10 +184,59 @@ func ctlWrapBoundOK(first, n uint8, out []byte) []byte {
 	return out
 }
 
+// ---- iterfresh (scalar sibling): the scratch slice is reset per group, the
+// "default" pointer that belongs to the same group is not.
+type ctlIterRec struct{ tag string }
+
+func ctlIterScalar(groups [][]string) int {
+	n := 0
+	var def *ctlIterRec
+	var recs []*ctlIterRec
+	for _, g := range groups {
+		recs = recs[:0]
+		for _, t := range g {
+			if t == "" {
+				def = &ctlIterRec{}
+				continue
+			}
+			recs = append(recs, &ctlIterRec{tag: t})
+		}
+		if def != nil {
+			n++
+		}
+		n += len(recs)
+	}
+	return n
+}
+
+// the safe twin: both are reset
+func ctlIterScalarOK(groups [][]string) int {
+	n := 0
+	var def *ctlIterRec
+	var recs []*ctlIterRec
+	for _, g := range groups {
+		recs = recs[:0]
+		def = nil
+		for _, t := range g {
+			if t == "" {
+				def = &ctlIterRec{}
+				continue
+			}
+			recs = append(recs, &ctlIterRec{tag: t})
+		}
+		if def != nil {
+			n++
+		}
+		n += len(recs)
+	}
+	return n
+}
+
 // CtlUse2 keeps further examples reachable.
 func CtlUse2(xs []int) bool {
 	_ = ctlSuccTest(nil) + ctlSuccTestWide(nil)
 	_ = ctlSuccTestGuard(1, 2)
+	_ = ctlIterScalar(nil) + ctlIterScalarOK(nil)
 	_ = ctlWrapBoundOK(1, 2, ctlWrapBound(1, 2, nil))
 	return ctlFlagReduce(xs)
 }
